@@ -435,6 +435,15 @@ func main() {
 			return true
 		})
 		addStr("verifyOrder", strings.Join(order, " ; "))
+		addStr("verifyChainGuard", src(oneIf("VerifyRebuildReplica", vr, "len(chain) < indx+1").Cond))
+		var slices []string
+		ast.Inspect(vr, func(x ast.Node) bool {
+			if s, ok := x.(*ast.SliceExpr); ok {
+				slices = append(slices, src(s))
+			}
+			return true
+		})
+		addStr("verifySlices", strings.Join(slices, " ; "))
 	}
 	// 11. cleaner filter
 	{
